@@ -170,6 +170,8 @@ def check(rep):
         if n == good:
             rep.ok(rule, construct, "", f"{n} expression/point combinations", cases=n)
     rep.sample({"names": LEGAL_NAMES})
+    from ..structure import check_coordinate_missing_source
+    check_coordinate_missing_source(rep, model, "C14.single-source")
     rep.require_floor("C14.coordinates", 4, "entry points")
     rep.require_floor("C14.varsets", 8, "constructors")
     rep.assume("coordinates whose value is None are outside 'finite points'")
